@@ -637,6 +637,7 @@ def run(ctx: RuleContext, p: Program) -> None:
     ctx.try_rule(rule_tok_rt, p, g, 'TOK-RT')
     ctx.try_rule(rule_lex_accept, p, g, 'LEX-ACCEPT')
     ctx.try_rule(rule_num_rt, p, g, 'NUM-RT')
+    ctx.try_rule(rule_esc_rt, p, g, 'ESC-RT')
     from . import bcline
     ctx.try_rule(bcline.rule_bc_line, p, 'BC-LINE')
     ctx.try_rule(rule_fmt_lang, p, g, 'FMT-LANG')
@@ -1460,3 +1461,118 @@ def rule_num_rt(ctx: RuleContext, p: Program, g: rx.Grammar, rid: str) -> None:
                                           f'(abs(), unary minus and arithmetic round to the precision of the context; copy_abs / copy_negate and format do not)')
     ctx.check(problem is None, rid, 'models.number:Number._format_value', 'every decimal of the pool is written as one NUMBER lexeme that reads back as it',
               problem or '', fmt.where, note=f'{n} (value, context) pairs')
+
+
+def rule_esc_rt(ctx: RuleContext, p: Program, g: rx.Grammar, rid: str) -> None:
+    """EscapedString evaluated end to end (ESC-TABLE decides the table and the callables, STR-BOUNDARY where the lexer stops on what a CORRECT escape
+    writes; neither runs the escape pattern itself on a text): _format_value, _parse_value, escape, unescape and the class-level patterns, as written"""
+    from . import possem
+    from .tokenstore import TS
+    c = p.cls('EscapedString', 'models.escaped_string')
+    fmt, prs = c.lookup('_format_value'), c.lookup('_parse_value')
+    if not isinstance(fmt, FuncInfo) or not isinstance(prs, FuncInfo):
+        raise AnalysisError('ESC-RT: EscapedString._format_value / _parse_value vanished')
+    rule = p.class_const(c, 'RULE')
+    tname = rule.value if isinstance(rule, ast.Constant) else None
+    if tname not in g.terminals:
+        raise AnalysisError('ESC-RT: EscapedString.RULE is not a terminal of the grammar')
+    pat = g.terminals[tname].pattern
+    flags = 0
+    for f in getattr(pat, 'flags', ()) or ():
+        flags |= {'i': re.I, 'm': re.M, 's': re.S, 'x': re.X, 'u': re.U}.get(f, 0)
+    term = re.compile(pat.to_regexp(), flags)
+    pieces = ['', 'a', ' ', '"', '\\', 'n', '\n', '\t', '\r', 'é', ';']
+    pool = sorted({a + b + c_ for a in pieces for b in pieces for c_ in ('', 'x', '"', '\\')} | {'\\\\"', '"\\"', 'C:\\"x\\"', 'say "hi"', '\\n', 'a\\\\', '\\"\\"', '\f\b'})
+    ctx.rule(rid, 'EscapedString._format_value / _parse_value with escape / unescape and the class-level patterns and tables, interpreted on %d texts '
+                  '(every arrangement of up to three of: a letter, a blank, a quote, a backslash, the letter n, line feed, tab, carriage return, a '
+                  'non-ASCII letter, a semicolon -- so a quote right behind a backslash, a backslash at the end, two backslashes before a quote): the '
+                  'text written is exactly one lexeme of the string terminal of the grammar (the lexer stops at its last character and nowhere before), '
+                  'and reads back as the value' % len(pool))
+    ts = TS(p)
+    clsobj = possem.Obj('EscapedStringClass', {}, 'cls')
+    cenv: dict = {}
+
+    class Interp(possem.PosInterp):
+        tag = 'ESC-RT'
+
+        def expr(self, e: Any, env: dict) -> Any:                 # type: ignore[override]
+            if isinstance(e, ast.Attribute) and isinstance(e.value, ast.Name) and (env.get(e.value.id) is clsobj or (e.value.id == c.name and c.name not in env)):
+                nm = e.attr
+                for k in (nm, nm.split('__')[-1] if nm.startswith('_' + c.name) else nm):
+                    if k in cenv:
+                        return cenv[k]
+                    if '__' + k in cenv:
+                        return cenv['__' + k]
+            if isinstance(e, ast.Name) and e.id not in env and e.id in cenv:
+                return cenv[e.id]                 # a class-level name read inside the class body
+            if isinstance(e, ast.Call) and isinstance(e.func, ast.Attribute) and isinstance(e.func.value, ast.Name) \
+                    and (env.get(e.func.value.id) is clsobj or (e.func.value.id == c.name and c.name not in env)):
+                h = c.lookup(e.func.attr)
+                if isinstance(h, FuncInfo):
+                    a = [self.expr(x, env) for x in e.args]
+                    kw = {k.arg: self.expr(k.value, env) for k in e.keywords if k.arg}
+                    return self.call_function(h, a if h.kind == 'staticmethod' else [clsobj] + a, kw)
+            if isinstance(e, ast.Call) and norm(e.func) in ('re.sub', 're.subn') and len(e.args) >= 3 and not e.keywords:
+                a = [self.expr(x, env) for x in e.args]
+                if (isinstance(a[0], str) or type(a[0]).__name__ == 'Pattern') and isinstance(a[2], str) and not isinstance(a[1], str):
+                    def repl(m_: Any, _f: Any = a[1]) -> str:
+                        r_ = self.call_value(_f, [m_], {}, e)
+                        if not isinstance(r_, str):
+                            raise possem.Raised(f'TypeError: expected str instance, {type(r_).__name__} found')
+                        return r_
+                    try:
+                        out = re.sub(a[0], repl, a[2], *a[3:])       # the standard library's engine applies the pattern (trusted); the callable is interpreted
+                    except KeyError as ex:
+                        raise possem.Raised(f'KeyError: {ex}')
+                    return out
+            if isinstance(e, ast.Subscript) and not isinstance(e.slice, ast.Slice):
+                b = self.expr(e.value, env)
+                if isinstance(b, dict):
+                    k = self.expr(e.slice, env)
+                    if k not in b:
+                        raise possem.Raised(f'KeyError: {k!r}')
+                    return b[k]
+                if type(b).__name__ == 'Match':
+                    return b[self.expr(e.slice, env)]
+            if isinstance(e, ast.Call) and isinstance(e.func, ast.Attribute) and e.func.attr in ('group', 'groups', 'start', 'end', 'span') \
+                    and not (isinstance(e.func.value, ast.Name) and e.func.value.id not in env):
+                b = self.expr(e.func.value, env)
+                if type(b).__name__ == 'Match':
+                    return getattr(b, e.func.attr)(*[self.expr(x, env) for x in e.args])
+            return super().expr(e, env)
+
+    # the class body, top to bottom: tables and compiled patterns (whatever they are called and however they are built)
+    boot = Interp(ts, [], module=c.module)
+    for st in c.node.body:
+        if isinstance(st, ast.Assign) and len(st.targets) == 1 and isinstance(st.targets[0], ast.Name):
+            cenv[st.targets[0].id] = boot.expr(st.value, {})
+        elif isinstance(st, ast.AnnAssign) and isinstance(st.target, ast.Name) and st.value is not None:
+            cenv[st.target.id] = boot.expr(st.value, {})
+
+    def run(fn: FuncInfo, arg: str) -> Any:
+        return Interp(ts, [], module=fn.module).call_function(fn, [arg] if fn.kind == 'staticmethod' else [clsobj, arg], {})
+
+    problem = None
+    for v in pool:
+        try:
+            raw = run(fmt, v)
+        except possem.Raised as ex:
+            problem = problem or f'the value {v!a} is refused by _format_value ({ex}); every text is a string value'
+            continue
+        if not isinstance(raw, str):
+            raise AnalysisError(f'ESC-RT: _format_value({v!a}) evaluates to {raw!r}')
+        m_ = term.match(raw)
+        if m_ is None or m_.end() != len(raw):
+            problem = problem or (f'the value {v!a} is written as {raw!a}; the lexer ({tname}: {term.pattern!a}) '
+                                  + ('does not find a string there' if m_ is None else f'ends the string after {raw[:m_.end()]!a} and meets {raw[m_.end():]!a} behind it')
+                                  + ': a quote or backslash of the value is written without its backslash, the printed ledger no longer parses')
+            continue
+        try:
+            back = run(prs, raw)
+        except possem.Raised as ex:
+            problem = problem or f'the value {v!a} is written as {raw!a}, which _parse_value refuses ({ex})'
+            continue
+        if back != v:
+            problem = problem or f'the value {v!a} is written as {raw!a}, which reads back as {back!a}'
+    ctx.check(problem is None, rid, 'models.escaped_string:EscapedString._format_value / _parse_value', 'every text of the pool is written as one string lexeme that reads back as it',
+              problem or '', fmt.where, note=f'{len(pool)} values')
